@@ -130,7 +130,10 @@ def check_after_multiple_times(case):
 
 
 class PlantSystem(System):
-    """A user's own subclass of System (the latest system may be one)."""
+    """A user's own subclass of System (the latest system may be one); it is falsy while it has no assets."""
+
+    def __len__(self):
+        return len(self._assets)
 
 
 def _idx(part):
